@@ -1002,7 +1002,7 @@ def remote_case(ctx, rep, case):
                        dict(want_path=case["path"] + (infix or "/…/") + t, **what))
                 return
     # presence: the documented URL forms of the four forges give a link for every hash of the commit line
-    documented = case["cls"] == "forge" and case["form"] in ("https", "scp", "scp-bare") and not case["port"] and case["user"] in ("", "git")
+    documented = case["cls"] == "forge" and not case["port"] and (case["form"], case["user"]) in (("https", ""), ("scp", "git"), ("scp-bare", ""))
     if (documented or case.get("cfmt")) and sorted(linked) != sorted(case["hashes"]):
         report(rep, "missing:commit:" + ("configured" if case.get("cfmt") else "remote-derived"),
                "a hash of the commit line is not linked although a template is configured / the origin is a documented forge URL",
